@@ -48,14 +48,18 @@ def _worker(job):
     w = World()
     states = trans = 0
     import time as _time
-    t_stop = _time.time() + (600 if _G["tier"] == "quick" else 4300)
+    t_stop = _time.time() + (450 if _G["tier"] == "quick" else 4300)
+    from . import explorer as _ex
+    _ex.DEADLINE[0] = min(_ex.DEADLINE[0] or 1e18, t_stop + 120)        # a single exploration must not outlive the job either
     for (excl, incl, mapping, window_open) in configs:
         if _time.time() > t_stop:
             rep.inconc("time budget of the worker exhausted before configuration %r" % ((excl, incl, mapping, window_open),))
             break
-        if len(rep.violations) >= 8:
-            break          # enough counterexamples from this share of the configurations
+        if len(rep.violations) >= 3:
+            break          # enough (distinct) counterexamples from this share of the configurations
         for hist in histories:
+            if len(rep.violations) >= 3 or _time.time() > t_stop:
+                break
             def h():
                 dec = R.decoder.NMEA2000Decoder(exclude_manufacturer_code=list(excl), include_manufacturer_code=list(incl), build_network_map=mapping)
                 dec.started_at = datetime.now() - (timedelta(seconds=5) if window_open else timedelta(minutes=11))
@@ -230,10 +234,20 @@ def replay(r):
                 ret = dec._decode(pgn, 3, src, 255, TS, body[::-1], b"")
             except Exception as e:
                 return True, "raised %r" % (e,)
+        def identity_ok(iso, name):
+            """every attribute of the identity, recomputed from the 64-bit NAME with the database tables"""
+            cls_, fn_ = (name >> 49) & 0x7F, (name >> 40) & 0xFF
+            want = dict(name=name, unique_number=name & 0x1FFFFF, manufacturer_code=table.get((name >> 21) & 0x7FF),
+                        device_instance=(((name >> 35) & 0x1F) << 3) | ((name >> 32) & 0x7), system_instance=(name >> 56) & 0xF,
+                        device_function=D.indirect.get("DEVICE_FUNCTION", {}).get("%d_%d" % (cls_, fn_)),
+                        device_class=D.lookups.get("DEVICE_CLASS", {}).get(cls_), industry_group=D.lookups.get("INDUSTRY_CODE", {}).get((name >> 60) & 0x7))
+            return [k for k, v in want.items() if getattr(iso, k, None) != v]
         if kind.startswith("claim"):
             latest[who] = r["name1" if kind == "claim1" else "name2"]
             if ret is None or ret.source_iso_name is None or ret.source_iso_name.name != latest[who]:
                 problems.append("position %d: claim not returned with its identity" % pos)
+            elif identity_ok(ret.source_iso_name, latest[who]):
+                problems.append("position %d: identity of the claim differs from its NAME %#x in %r" % (pos, latest[who], identity_ok(ret.source_iso_name, latest[who])))
             continue
         if who not in latest:
             exp = not (r["mapping"] and r["window_open"])
@@ -254,4 +268,6 @@ def replay(r):
             if (iso is None) != (name is None) or (iso is not None and (iso.name != name or iso.unique_number != name & 0x1FFFFF or
                                                                     iso.manufacturer_code != table.get((name >> 21) & 0x7FF))):
                 problems.append("position %d: identity %r, latest claim NAME %r" % (pos, None if iso is None else iso.name, name))
+            elif iso is not None and identity_ok(iso, name):
+                problems.append("position %d: identity differs from the latest claim NAME %#x in %r" % (pos, name, identity_ok(iso, name)))
     return bool(problems), "; ".join(problems[:3])
